@@ -114,7 +114,7 @@ _MISSING = object()
 
 class SymDict:
     def __init__(self, entries=()):
-        self.entries = [list(e) for e in (entries.items() if isinstance(entries, dict) else entries)]
+        self.entries = [list(e) for e in (entries.items() if isinstance(entries, (dict, SymDict)) else entries)]
 
     def _find(self, key):
         for k, e in enumerate(self.entries):
@@ -178,7 +178,7 @@ class SymDict:
         return iter([e[0] for e in self.entries])
 
     def keys(self):
-        return [e[0] for e in self.entries]
+        return _Keys(self, [e[0] for e in self.entries])
 
     def values(self):
         return [e[1] for e in self.entries]
@@ -189,6 +189,27 @@ class SymDict:
     def copy(self):
         return SymDict(self.entries)
 
+    def __or__(self, other):
+        r = SymDict(self.entries)
+        r.update(other)
+        return r
+
+    def __ror__(self, other):
+        r = SymDict(other)
+        r.update(self)
+        return r
+
+    def __ior__(self, other):
+        self.update(other)
+        return self
+
+    def __eq__(self, other):
+        if not hasattr(other, "items") or len(other) != len(self):
+            return False
+        return all(k in other and bool(other[k] == v) for k, v in self.items())
+
+    __hash__ = None
+
     def update(self, other):
         for k, v in (other.items() if hasattr(other, "items") else other):
             self[k] = v
@@ -198,6 +219,37 @@ class SymDict:
 
     def __repr__(self):
         return f"SymDict({self.entries!r})"
+
+
+class _Keys(list):
+    """dict.keys() of a list-backed dictionary: a list that also answers the set operations of a keys view (membership by ==)"""
+
+    def __init__(self, d, ks):
+        super().__init__(ks)
+        self._d = d
+
+    def __contains__(self, k):
+        return k in self._d
+
+    def __and__(self, other):
+        return [k for k in self if k in other]
+
+    def __rand__(self, other):
+        return [k for k in other if k in self._d]
+
+    def __sub__(self, other):
+        return [k for k in self if k not in other]
+
+    def __rsub__(self, other):
+        return [k for k in other if k not in self._d]
+
+    def __or__(self, other):
+        return list(self) + [k for k in other if k not in self._d]
+
+    __ror__ = __or__
+
+    def isdisjoint(self, other):
+        return not any(k in self._d for k in other)
 
 
 hook.EXEMPLAR[SymDict] = lambda o: {}
